@@ -1,7 +1,9 @@
 (* Executable model of src/hpotk/util/_io.py
      looks_like_url, looks_gzipped, open_text_io_handle_for_reading, open_text_io_handle_for_writing
-   as a decision table over the KIND of the argument, plus what each decision does to the content,
-   with the codecs (text encoding, gzip) as section variables.  Which Python object falls into which
+   as a decision table over the KIND of the argument, plus what each decision does to the content:
+   which encoding the text layer uses (the `encoding` parameter or the locale's), which newline mode
+   it uses (universal translation or none), with the byte-level codecs (text encoding, gzip) as
+   section variables.  Which Python object falls into which
    kind (isinstance against the io ABCs) is runtime behaviour: the correspondence executes it.
    Definitions only. *)
 From Coq Require Import String Ascii List Bool Arith.
@@ -31,66 +33,111 @@ Inductive arg :=
 | ABinaryStream             (* an open binary stream (io.BufferedIOBase / io.RawIOBase): open(p, 'rb'), BytesIO, gzip.open(p, 'rb') *)
 | AOther.                   (* anything else: int, None, bytes, pathlib.Path, ... *)
 
+(* ---- the text layer the helper puts on top of the bytes ---- *)
+(* which encoding it uses: the helper's `encoding` parameter (default sys.getdefaultencoding(), i.e. UTF-8),
+   or whatever the process locale prefers (what open(path, 'w') does when no encoding is passed) *)
+Inductive encsel := EncParam | EncLocale.
+(* TextIOWrapper newline=None (universal newlines: on input CR LF and CR become LF; on output LF becomes
+   os.linesep) or newline='' (no translation) *)
+Inductive nlmode := NlUniversal | NlRaw.
+Record layer := { l_enc : encsel; l_nl : nlmode }.
+
+Definition lf : ascii := "010"%char.
+Definition crc : ascii := "013"%char.
+
+(* input translation of universal-newline mode *)
+Fixpoint universal (s : string) : string :=
+  match s with
+  | EmptyString => EmptyString
+  | String c r =>
+      if Ascii.eqb c crc
+      then String lf (match r with
+                      | String c2 r2 => if Ascii.eqb c2 lf then universal r2 else universal r
+                      | EmptyString => EmptyString
+                      end)
+      else String c (universal r)
+  end.
+Definition deliver (m : nlmode) (s : string) : string := match m with NlUniversal => universal s | NlRaw => s end.
+
+(* output translation: LF becomes the platform's line separator in universal mode *)
+Fixpoint expand (linesep s : string) : string :=
+  match s with
+  | EmptyString => EmptyString
+  | String c r => if Ascii.eqb c lf then linesep ++ expand linesep r else String c (expand linesep r)
+  end.
+Definition emit (linesep : string) (m : nlmode) (s : string) : string := match m with NlUniversal => expand linesep s | NlRaw => s end.
+
 (* what the helper does *)
 Inductive rplan :=
-| ROpen (url gz : bool)     (* open the local file / the URL in binary mode; gunzip on the fly iff gz; decode *)
-| RWrap                     (* wrap the caller's binary stream into a decoder *)
-| RPass.                    (* return the caller's text stream itself *)
+| ROpen (url gz : bool) (l : layer)   (* open the local file / the URL in binary mode; gunzip on the fly iff gz; decode through l *)
+| RWrap (l : layer)                   (* wrap the caller's binary stream into a decoder *)
+| RPass.                              (* return the caller's text stream itself *)
 
 Definition open_for_reading (a : arg) : res rplan :=
   match a with
-  | AStr f => Ok (ROpen (looks_like_url f) (looks_gzipped f))
-  | ABinaryStream => Ok RWrap
+  | AStr f =>
+      (* gzip.open(handle, 'rt', encoding=encoding) / io.TextIOWrapper(handle, encoding=encoding) *)
+      Ok (ROpen (looks_like_url f) (looks_gzipped f) {| l_enc := EncParam; l_nl := NlUniversal |})
+  | ABinaryStream => Ok (RWrap {| l_enc := EncParam; l_nl := NlUniversal |})     (* io.TextIOWrapper(fh, encoding=encoding) *)
   | ATextStream => Ok RPass
   | AOther => Err ValueError
   end.
 
 Inductive wplan :=
-| WOpen (gz : bool)         (* create the local file; gzip on the fly iff gz; encode *)
-| WWrap                     (* wrap the caller's binary stream into an encoder *)
-| WPass.                    (* return the caller's text stream itself *)
+| WOpen (gz : bool) (l : layer)       (* create the local file; gzip on the fly iff gz; encode through l *)
+| WWrap (l : layer)                   (* wrap the caller's binary stream into an encoder *)
+| WPass.                              (* return the caller's text stream itself *)
 
 Definition open_for_writing (a : arg) : res wplan :=
   match a with
-  | AStr f => Ok (WOpen (looks_gzipped f))
-  | ABinaryStream => Ok WWrap
+  | AStr f =>
+      if looks_gzipped f
+      then Ok (WOpen true {| l_enc := EncParam; l_nl := NlRaw |})          (* gzip.open(fh, 'wt', newline='', encoding=encoding) *)
+      else Ok (WOpen false {| l_enc := EncParam; l_nl := NlUniversal |})   (* open(fh, 'w', encoding=encoding) *)
+  | ABinaryStream => Ok (WWrap {| l_enc := EncParam; l_nl := NlUniversal |})    (* io.TextIOWrapper(fh, encoding=encoding) *)
   | ATextStream => Ok WPass
   | AOther => Err ValueError
   end.
 
+Definition rplan_layer (p : rplan) : option layer := match p with ROpen _ _ l => Some l | RWrap l => Some l | RPass => None end.
+Definition wplan_layer (p : wplan) : option layer := match p with WOpen _ l => Some l | WWrap l => Some l | WPass => None end.
+
 (* ---- what the decisions do to the content ---- *)
 Section Codec.
-Variables text bytes : Type.
-Variable encode : text -> bytes.
-Variable decode : bytes -> text.
+Variable bytes : Type.
+(* one codec per encoding selection: nothing is assumed of the locale's *)
+Variable encode : encsel -> string -> bytes.
+Variable decode : encsel -> bytes -> string.
 Variable gzip : bytes -> bytes.
 Variable gunzip : bytes -> bytes.
+Variable linesep : string.            (* os.linesep *)
 
 (* what a source of each kind holds when it carries the text c *)
-Inductive material := MBytes (b : bytes) | MText (t : text).
+Inductive material := MBytes (b : bytes) | MText (t : string).
 
-Definition materialise (a : arg) (c : text) : material :=
+(* the content c, stored in the requested encoding behind a name or a binary stream; a text stream yields c itself *)
+Definition materialise (a : arg) (c : string) : material :=
   match a with
-  | AStr f => MBytes (if looks_gzipped f then gzip (encode c) else encode c)   (* the file / resource behind the name *)
-  | ABinaryStream => MBytes (encode c)
+  | AStr f => MBytes (if looks_gzipped f then gzip (encode EncParam c) else encode EncParam c)   (* the file / resource behind the name *)
+  | ABinaryStream => MBytes (encode EncParam c)
   | ATextStream => MText c
   | AOther => MText c
   end.
 
 (* the text the returned handle delivers *)
-Definition read_text (p : rplan) (m : material) : option text :=
+Definition read_text (p : rplan) (m : material) : option string :=
   match p, m with
-  | ROpen _ gz, MBytes b => Some (decode (if gz then gunzip b else b))
-  | RWrap, MBytes b => Some (decode b)
+  | ROpen _ gz l, MBytes b => Some (deliver (l_nl l) (decode (l_enc l) (if gz then gunzip b else b)))
+  | RWrap l, MBytes b => Some (deliver (l_nl l) (decode (l_enc l) b))
   | RPass, MText t => Some t
   | _, _ => None
   end.
 
 (* what ends up in the target after writing the text c through the returned handle *)
-Definition written (p : wplan) (c : text) : material :=
+Definition written (p : wplan) (c : string) : material :=
   match p with
-  | WOpen gz => MBytes (if gz then gzip (encode c) else encode c)
-  | WWrap => MBytes (encode c)
+  | WOpen gz l => let b := encode (l_enc l) (emit linesep (l_nl l) c) in MBytes (if gz then gzip b else b)
+  | WWrap l => MBytes (encode (l_enc l) (emit linesep (l_nl l) c))
   | WPass => MText c
   end.
 End Codec.
